@@ -376,66 +376,103 @@ def ff_specialized_command(repo, res, rule="FF"):
                 res.check(p[0] == "param" and isinstance(p[1], int) and p[1] < len(fn.params) and "Shell" in (fn.params[p[1]].get("ty") or ""), "ARMS", f"ARMS:{fq}:scrutinee", f"arms selected by {A.show(p)}", f"{fn.file}:{mt['l']}")
 
 
+def _shell_value(repo, fn, envs, e, env, shell, depth=0, binding=None):
+    """the string an expression evaluates to when the function's Shell parameter is `shell` (None when it cannot be followed):
+    literals, locals (with tuple projections), `match <shell param>`, struct literals (their `cmd` field), `ustr(..)`-like wrappers,
+    and calls of helpers of the module that take the shell"""
+    if depth > 12 or e is None:
+        return None
+    k = e["k"]
+    rec = lambda x, env_=env, fn_=fn, envs_=envs, b=binding: _shell_value(repo, fn_, envs_, x, env_, shell, depth + 1, b)
+    if k == "Lit":
+        return e["v"] if e.get("lit") == "str" else None
+    if k in ("Ref", "Paren", "Unary", "Try", "Cast"):
+        return rec(e["expr"])
+    if k == "Block":
+        st = e["stmts"]
+        return rec(st[-1]["expr"], envs.get(id(st[-1]["expr"])) or env) if st and st[-1]["k"] == "ExprStmt" and not st[-1].get("semi") else None
+    if k == "Struct":
+        f = [fi for fi in e["fields"] if fi["name"] == "cmd"] or e["fields"][:1]
+        return rec(f[0]["expr"]) if f else None
+    if k == "Tuple":
+        return tuple(rec(x) for x in e["elems"])
+    if k == "MethodCall" and not e["args"]:
+        return rec(e["recv"])
+    if k == "Match":
+        sp = A.resolve(e["scrut"], envs.get(id(e)) or env)
+        is_shell = sp[0] == "param" or (binding is not None and sp[0] == "param")
+        if not is_shell:
+            return None
+        for arm in e["arms"]:
+            vs = [P.last(v[0]) for v in A.pat_variants(arm["pat"])]
+            if shell in vs or (not vs and arm["pat"]["k"] == "PWild"):
+                return rec(arm["body"], envs.get(id(arm["body"])) or env)
+        return None
+    if k == "Call" and e["func"]["k"] == "Path":
+        nm = e["func"]["path"].split("::")[-1]
+        h = next((g for g in repo.fns_in(fn.module) if g.name == nm and g is not fn), None)
+        if h is not None and any("Shell" in (prm.get("ty") or "") for prm in h.params):
+            henvs = A.collect_envs(h)
+            return _shell_value(repo, h, henvs, h.body, A.fn_env(h), shell, depth + 1, True)
+        if len(e["args"]) == 1:
+            return rec(e["args"][0])   # ustr(..), String::from(..), BuiltinSpec::new(..)
+        return None
+    if k == "Path" and "::" not in e["path"] and env is not None:
+        df = env.get(e["path"])
+        if df is None or df.init is None or df.kind not in ("let", "bind"):
+            return None
+        v = _shell_value(repo, fn, envs, df.init, df.env or env, shell, depth + 1, binding)
+        for pr in (df.proj or ()):
+            if isinstance(pr, tuple) and pr[0] == "tuple" and isinstance(v, tuple) and pr[1] < len(v):
+                v = v[pr[1]]
+            else:
+                return None
+        return v
+    return None
+
+
 def arms_builtin(repo, res, rule="ARMS"):
+    """what <PATH> / <DIRECTORY> stand for in each shell: the command text inserted under each name is evaluated for every value of
+    the Shell parameter (through locals, tuples, helper functions); it must be that shell's own vocabulary, the DIRECTORY text must be
+    a directory completion, the PATH text must not be, and the two must differ"""
     fq = "check::make_builtin_specializations"
     fn = repo.fn(fq)
     if fn is None:
         res.undecided(rule, f"{rule}:{fq}", "function not found")
         return
     envs = A.collect_envs(fn)
-    # the per-shell tables: matches on the shell parameter here, or in the helpers of the module this function calls (one helper per
-    # builtin after a split)
-    holders = [(fn, envs)]
-    for h in repo.fns_in(fn.module):
-        if h is not fn and list(P.find_calls(fn.body, names={h.name})) and any("Shell" in (prm.get("ty") or "") for prm in h.params):
-            holders.append((h, A.collect_envs(h)))
-    matches = [(n, he) for hf, he in holders for n in A.walk(hf.body) if n["k"] == "Match"]
-    owner = {id(n): hf for hf, he in holders for n in A.walk(hf.body) if n["k"] == "Match"}
+    en = repo.enum("Shell")
+    shells = [v["name"] for v in en["variants"]] if en else ["Bash", "Fish", "Zsh", "Pwsh"]
     n_arms = 0
-    spec_kind = {}
-    helper_kind = {}
-    for mt, menv in matches:
-        p = A.resolve(mt["scrut"], menv.get(id(mt)))
-        if not (p[0] == "param"):
-            continue
-        texts = {}
-        for arm in mt["arms"]:
-            vs = A.pat_variants(arm["pat"])
-            if not vs:
-                continue
-            shell = P.last(vs[0][0])
-            lits = [x["v"] for x in A.walk(arm["body"]) if x["k"] == "Lit" and x["lit"] == "str"]
-            texts[shell] = " ".join(lits)
-        for shell, text in texts.items():
-            n_arms += 1
-            foreign = [t for other, toks in SHELL_TOKENS.items() if other != shell for t in toks if t in text]
-            res.check(not foreign, rule, f"{rule}:{fq}:{shell}@{len(spec_kind)}", f"{shell} arm command {text!r}" + (f" contains another shell's vocabulary {foreign}" if foreign else ""), f"{fn.file}:{mt['l']}")
-        alltext = " ".join(texts.values()).lower()
-        spec_kind[id(mt)] = "directory" if ("director" in alltext and "-/" in alltext) else "file"
-        if owner[id(mt)] is not fn:
-            helper_kind[owner[id(mt)].name] = spec_kind[id(mt)]
-    res.check(n_arms >= 8, rule, f"{rule}:{fq}:count", f"{n_arms} shell arms inspected", fn.loc())
-    # PATH <- file spec ; DIRECTORY <- directory spec
+    seen = {}
     for c in P.find_calls(fn.body, methods={"insert_entry", "insert"}):
         env = envs.get(id(c))
-        recv = A.resolve(c["recv"], env)
         keyname = None
-        for r in A.walk(c["recv"]):
+        for r in list(A.walk(c["recv"])) + [x for a in c["args"][:-1] for x in A.walk(a)]:
             if r["k"] == "Lit" and r["lit"] == "str":
                 keyname = r["v"]
-        arg = c["args"][-1]
-        kind = None
-        if arg["k"] == "Path":
-            df = env.get(arg["path"])
-            if df is not None and df.init is not None and df.init["k"] == "Match":
-                kind = spec_kind.get(id(df.init))
-            elif df is not None and df.init is not None and df.init["k"] == "Call" and df.init["func"]["k"] == "Path":
-                kind = helper_kind.get(df.init["func"]["path"].split("::")[-1])
-        elif arg["k"] == "Call" and arg["func"]["k"] == "Path":
-            kind = helper_kind.get(arg["func"]["path"].split("::")[-1])
-        if keyname in ("PATH", "DIRECTORY"):
-            want = "file" if keyname == "PATH" else "directory"
-            res.check(kind == want, rule, f"{rule}:{fq}:{keyname}", f"<{keyname}> gets the {kind} completion spec", f"{fn.file}:{c['l']}")
+        if keyname not in ("PATH", "DIRECTORY"):
+            continue
+        want = "file" if keyname == "PATH" else "directory"
+        kinds = set()
+        for shell in shells:
+            text = _shell_value(repo, fn, envs, c["args"][-1], env, shell)
+            if not isinstance(text, str):
+                res.undecided(rule, f"{rule}:{fq}:{shell}@{keyname}", f"cannot follow the command text of <{keyname}> for {shell}")
+                continue
+            n_arms += 1
+            seen[(keyname, shell)] = text
+            foreign = [t for other, toks in SHELL_TOKENS.items() if other != shell for t in toks if t in text]
+            res.check(not foreign, rule, f"{rule}:{fq}:{shell}@{keyname}", f"{shell} command for <{keyname}>: {text!r}" + (f" contains another shell's vocabulary {foreign}" if foreign else ""), f"{fn.file}:{c['l']}")
+            low = text.lower()
+            kinds.add("directory" if ("director" in low or "-/" in low) else "file")
+        kind = kinds.pop() if len(kinds) == 1 else (None if not kinds else "mixed")
+        res.check(kind == want, rule, f"{rule}:{fq}:{keyname}", f"<{keyname}> gets the {kind} completion spec", f"{fn.file}:{c['l']}")
+    res.check(n_arms >= 8, rule, f"{rule}:{fq}:count", f"{n_arms} shell arms inspected", fn.loc())
+    for shell in shells:
+        a, b = seen.get(("PATH", shell)), seen.get(("DIRECTORY", shell))
+        if a is not None and b is not None:
+            res.check(a != b, rule, f"{rule}:{fq}:{shell}:distinct", f"{shell}: <PATH> and <DIRECTORY> stand for different commands" if a != b else f"{shell}: <DIRECTORY> runs the very command of <PATH> ({a!r}): it completes files as well", fn.loc())
 
 
 def run(repo, res, tier):
